@@ -23,7 +23,7 @@ impl C19 {
 }
 
 const BPPS: [u16; 3] = [16, 32, 15];
-const DATA_KINDS: [&str; 9] = ["raw-exact", "raw-short", "raw-long", "rle-valid", "garbage", "rle-truncated", "raw-rows-without-padding", "rle-run-overruns-a-later-line", "rle-run-overruns-the-first-line"];
+const DATA_KINDS: [&str; 11] = ["raw-exact", "raw-short", "raw-long", "rle-valid", "garbage", "rle-truncated", "raw-rows-without-padding", "rle-run-overruns-a-later-line", "rle-run-overruns-the-first-line", "rle-extreme-values", "rle-ends-after-the-first-scan-line"];
 
 #[derive(Debug)]
 struct Case {
@@ -166,6 +166,18 @@ fn make_data(c: &Case) -> (Vec<u8>, bool, Option<Vec<u32>>) {
                     (d, true, None)
                 }
                 8 => (vec![0x1F, 0x1F], true, None),
+                // a stream that simply ends after one colour run covering the bottom scan line (the decoder stops without an
+                // error: what the rest of the image holds is whatever the decoder's scratch memory held)
+                10 => {
+                    let mut d = vec![];
+                    if w > 0 {
+                        d.push(0x60 | (w.min(31) as u8));
+                        d.extend_from_slice(&[0x1F, 0x00]);
+                    }
+                    (d, true, None)
+                }
+                // mega-mega orders with the extreme run lengths 0 and 0xFFFF and colour 0xFFFF
+                9 => (vec![0xF3, 0xFF, 0xFF, 0xFF, 0xFF, 0xF0, 0x00, 0x00, 0xF8, 0xFF, 0xFF, 0xFF, 0xFF, 0x00, 0x00], true, None),
                 _ => (vec![0xFF, 0x00, 0x13, 0xA5, 0xF0], true, None),
             }
         }
@@ -220,6 +232,21 @@ fn make_data(c: &Case) -> (Vec<u8>, bool, Option<Vec<u32>>) {
                 }
                 // planar: a long-run control byte (run of 32) opens the first line of every plane
                 8 => (vec![0x10, 0x02, 0x02, 0x02, 0x02, 0x02, 0x02, 0x02, 0x02], true, None),
+                // planar: every plane = a raw first line of 200s, then raw lines whose deltas are all 0xFF (-128), the
+                // extreme of the delta encoding
+                9 => {
+                    let mut d = vec![0x10u8];
+                    for _ in 0..4 {
+                        for line in 0..h {
+                            if w > 0 {
+                                d.push((w.min(15) as u8) << 4);
+                                d.extend(std::iter::repeat(if line == 0 { 200u8 } else { 0xFF }).take(w.min(15)));
+                            }
+                        }
+                    }
+                    (d, true, None)
+                }
+                // (the planar decoder fails on a stream that ends early: same bytes as the garbage kind)
                 _ => (vec![0x10, 0xFF, 0x00, 0x13], true, None),
             }
         }
@@ -254,7 +281,7 @@ impl Prop for C19 {
         json!({"idx": idx, "window": [c.win_w, c.win_h], "rect": {"left": c.l, "top": c.t, "right": c.r, "bottom": c.b}, "image": [c.img_w, c.img_h], "bpp": c.bpp, "data": DATA_KINDS[c.kind]})
     }
     fn rule(&self) -> String {
-        "cases = (window WxH in 1..3 squared (1..4 in thorough), rectangle left/top/right/bottom each in {0..5, 65535} ({0..6, 32768, 65535} in thorough) (inside, outside, inverted), image width/height each in 0..5, depth in {16,32,15}, data in {raw exact, raw one byte short, raw 4 bytes long, valid RLE, garbage, RLE truncated, raw rows without their 4-byte padding (16 bpp) / half the rows (32 bpp), compressed streams whose run overruns the first / a later scan line}) — the full product; plus images of 2^14..2^17 pixels (256x256, 255x257, 300x250, 512x128, 181x362, 65535x1, 1x65535, 32768x2, 2x32768, 128x256, 64x64) at 16 and 32 bpp as raw exact / raw short / valid RLE / truncated RLE / unpadded rows, painted whole into a 300x260 window, at offset (1,1), clipped by a 4x4 and by a 520x2 window. Executed on the unmodified fast_bitmap_transfer under a red-zone allocator. Oracle: no panic; canary zones of every heap block intact; when the call succeeds for a rectangle inside the window with a known image, the buffer equals the reference blit (rows top..bottom, columns left..right from image rows 0.., columns 0..) and every other cell keeps its sentinel; when the call fails the buffer may hold a prefix of the rows but never a foreign value. Non-trivial: the call reached the copy loop (decompression succeeded).".into()
+        "cases = (window WxH in 1..3 squared (1..4 in thorough), rectangle left/top/right/bottom each in {0..5, 65535} ({0..6, 32768, 65535} in thorough) (inside, outside, inverted), image width/height each in 0..5, depth in {16,32,15}, data in {raw exact, raw one byte short, raw 4 bytes long, valid RLE, garbage, RLE truncated, raw rows without their 4-byte padding (16 bpp) / half the rows (32 bpp), compressed streams whose run overruns the first / a later scan line, streams made of the extreme values of the encodings (planar deltas of -128 on every later line, mega-mega runs of 0 and 65535 pixels), an interleaved stream that ends after its first scan line}) — the full product; plus images of 2^14..2^17 pixels (256x256, 255x257, 300x250, 512x128, 181x362, 65535x1, 1x65535, 32768x2, 2x32768, 128x256, 64x64) at 16 and 32 bpp as raw exact / raw short / valid RLE / truncated RLE / unpadded rows, painted whole into a 300x260 window, at offset (1,1), clipped by a 4x4 and by a 520x2 window. Executed on the unmodified fast_bitmap_transfer under a red-zone allocator. Oracle: no panic; canary zones of every heap block intact; when the call succeeds for a rectangle inside the window with a known image, the buffer equals the reference blit (rows top..bottom, columns left..right from image rows 0.., columns 0..) and every other cell keeps its sentinel; when the call fails the buffer may hold a prefix of the rows but never a foreign value; for data whose decoded image the harness does not know (garbage, truncated or overrunning streams) the paint is repeated with fresh heap blocks pre-filled with 0xA5 and with 0x3C: both windows and results must be equal (the window never shows memory the decoder did not write). Non-trivial: the call reached the copy loop (decompression succeeded).".into()
     }
     fn assumptions(&self) -> Vec<String> {
         vec![
@@ -316,7 +343,22 @@ impl Prop for C19 {
             let class = format!("{}:{}:{}", if res.is_ok() { "ok" } else { "err" }, if inside { "inside" } else { "outside" }, if big_enough { "fits" } else { "image-too-small" });
             return Outcome::pass(class, true);
         }
-        // unknown image (garbage or truncated data): memory safety only
+        // unknown image (garbage or truncated data): memory safety, and the window must not show memory the decoder never
+        // wrote — the same paint under two different fillings of fresh heap blocks gives the same window
+        let mut runs: Vec<(bool, Vec<u32>)> = vec![];
+        for poison in [0xA5u8, 0x3C] {
+            let (data, compress, _) = make_data(&c);
+            let mut b2: Vec<u32> = vec![SENT; c.win_w * c.win_h];
+            let ev = BitmapEvent { dest_left: c.l, dest_top: c.t, dest_right: c.r, dest_bottom: c.b, width: c.img_w, height: c.img_h, bpp: c.bpp, is_compress: compress, data };
+            redzone::POISON.store(poison, Relaxed);
+            let r2 = blit(&mut b2, c.win_w, ev);
+            redzone::POISON.store(0, Relaxed);
+            runs.push((r2.is_ok(), b2));
+        }
+        if runs[0] != runs[1] {
+            let at = runs[0].1.iter().zip(runs[1].1.iter()).position(|(a, b)| a != b);
+            return Outcome::fail("mismatch", "window-shows-memory-the-decoder-never-wrote", format!("the same paint gives another window (first difference at cell {:?}: {:#x?} / {:#x?}) or result ({} / {}) when fresh heap blocks are filled with 0xA5 or with 0x3C; {:?}", at, at.map(|i| runs[0].1[i]), at.map(|i| runs[1].1[i]), runs[0].0, runs[1].0, c));
+        }
         Outcome::pass(format!("{}:undecodable", if res.is_ok() { "ok" } else { "err" }), false)
     }
 }
